@@ -1071,9 +1071,9 @@ fn collect_loops(b: &[Stmt], out: &mut Vec<(LoopKind, Option<Cond>)>) {
                 }
             }
             Stmt::Do(b) | Stmt::Closure(_, b) => collect_loops(b, out),
-            Stmt::While(c, _, b) => {
+            Stmt::While(c, bd, b) => {
                 collect_loops(b, out);
-                out.push((LoopKind::While, Some(c.clone())));
+                out.push((while_kind(c, *bd), Some(c.clone())));
             }
             Stmt::Repeat(b, c, _) => {
                 collect_loops(b, out);
@@ -1141,6 +1141,7 @@ pub fn probe_contexts(p: &Prog, ids: &HashMap<usize, u32>) -> HashMap<u32, Probe
                     let mut inner = ctx.clone();
                     inner.in_loop = true;
                     walk(b, &inner, ids, out);
+                    collect_loops(b, &mut ctx.loops_before);
                     ctx.loops_before.push((kind, Some(c.clone())));
                 }
                 Stmt::ForNum(_, _, b) | Stmt::ForIn(_, _, b) => {
@@ -1148,6 +1149,7 @@ pub fn probe_contexts(p: &Prog, ids: &HashMap<usize, u32>) -> HashMap<u32, Probe
                     let mut inner = ctx.clone();
                     inner.in_loop = true;
                     walk(b, &inner, ids, out);
+                    collect_loops(b, &mut ctx.loops_before);
                     ctx.loops_before.push((kind, None));
                 }
                 _ => {}
